@@ -301,6 +301,19 @@ pub fn gen_plan(property: &str, seed: u64, index: u64, tier: Tier) -> Plan {
             let n = rng.range(2, 5);
             let mut pos = start.clone();
             let mut stack = vec![pos.clone()];
+            if mix(seed, index, 0x4c43) % 12 == 0 {
+                // counting late in a long game: a hundred quiet plies behind the position
+                for _ in 0..rng.range(98, 106) {
+                    let legal = pos.legal_moves();
+                    if legal.is_empty() {
+                        break;
+                    }
+                    let k = choose_move(&mut rng, &pos, &legal, Policy::Frozen, None);
+                    ops.push(Op::Make(k as u32));
+                    pos = pos.make(&legal[k]);
+                    stack.push(pos.clone());
+                }
+            }
             for _ in 0..n {
                 let d = rng.range(0, maxd) as u8;
                 ops.push(Op::Perft(d, rng.below(2) as u8));
